@@ -74,7 +74,7 @@ def pool(edges):
     return np.array(vals)
 
 
-def compare(ctx, infr, inam, edges, mode, case, tag):
+def compare(ctx, infr, inam, edges, mode, case, tag, e_given=None):
     from emd import spectra as SP
     H, H1 = brute(infr, inam, edges, mode) if infr.size <= 4000 else brute_fast(infr, inam, edges, mode)
     tot = np.abs(inam ** 2 if mode == 'energy' else inam).sum() or 1.0
@@ -91,6 +91,9 @@ def compare(ctx, infr, inam, edges, mode, case, tag):
     # the bin edges as an array, or (every fifth case) as the list / tuple a caller may equally well write down
     form = ctx.evaluations % 5
     e_arg = edges if form > 1 else (list(map(float, edges)) if form == 0 else tuple(map(float, edges)))
+    if e_given is not None:
+        e_arg, form = e_given, 9
+        ctx.count('edges_passed_as_integers_in_a_' + type(e_given).__name__)
     if form <= 1:
         ctx.count('edges_passed_as_' + ('list' if form == 0 else 'tuple'))
     if ctx.evaluations % 4 == 1:
@@ -268,6 +271,16 @@ def run_shard(ctx):
         thread_probe(ctx, rng)
     if ctx.shard % 8 == 5:
         huge_sparse(ctx, rng)
+    for ed in [(0, 5, 10), (1, 4, 9, 12), (2, 30), (0, 3, 6, 9, 12), [0, 5, 10], np.array([0, 5, 10])]:
+        # bin edges written down as whole numbers, in any container
+        T, M = int(rng.integers(5, 60)), int(rng.integers(1, 4))
+        infr, inam = rng.uniform(-2, 14, (T, M)), rng.uniform(.1, 3, (T, M))
+        for mode in ('energy', 'amplitude'):
+            case = {'kind': 'hht', 'infr': infr, 'inam': inam, 'edges': np.asarray(ed, float), 'mode': mode, 'edge_form': type(ed).__name__}
+            try:
+                compare(ctx, infr.copy(), inam.copy(), np.asarray(ed, dtype=float), mode, case, 'int-edges', e_given=ed)
+            except Exception as e:
+                ctx.violation('exception:%s' % type(e).__name__, 'spectrum routine raised %s: %s (edges %r)' % (type(e).__name__, str(e)[:100], ed), case)
     # random part
     n = NRANDOM[ctx.tier] // ctx.nshards
     for i in range(n):
